@@ -148,6 +148,19 @@ CHECKS = {
              "for the statement (3 x 3).",
         technique="exhaustive enumeration of the configuration product in sub-processes, table oracle + cross-mode differential",
         design="3/C15"),
+    "C17": dict(
+        text="History exploration over definition sequences on the real metaclass/decorators: after a contracted root class every "
+             "sequence of definition steps (class with bases DBC | one | two existing classes in either order x invariant "
+             "check_on x method/property contracts; decorated module-level function) is replayed on a fresh namespace - quick: "
+             "depth 2 over the small alphabet; thorough: depth 2 over the full alphabet and depth 3 over the small one. Before "
+             "and after the last step of every history all earlier classes/functions are observed: condition names in "
+             "__invariants__/__invariants_on_call__/__invariants_on_setattr__ (and whether the class owns the list), checker "
+             "lists of method and property, own members, and probe verdicts + evaluation logs (construct, call, property, "
+             "setattr) under all-true and every single-falsy table including the conditions the new step introduces.",
+        note="Trusted: CPython, the observer. No state merging (every history is executed). Subclassing without DBC is excluded "
+             "(documented as leaking).",
+        technique="breadth-first exploration of definition histories on the real code with before/after differential observation of all earlier definitions",
+        design="3/C17"),
     "C16": dict(
         text="Exhaustive exploration of family F (all kinds, sync/async, plain/DBC chains of <=3 classes, own and inherited "
              "stacks of pre/post/snapshot/invariant, two decorator layouts, foreign functools.wraps decorators at top/middle/"
